@@ -898,3 +898,27 @@ def unit_switch_program():
             stmts += [R.Units(m1), act()]
         return (doms, stmts)
     return gen
+
+
+# ---------------------------------------------------------------- get -------
+def get_cases(Case):
+    """`get` in each unit mode from a light in a given raw state: the registers (printed) and a following `set` of
+    another light carry the colour read.  Raw and logical modes read a symbolic raw state; rgb (piecewise, nonlinear)
+    reads concrete states chosen on and off the boundaries of the conversion."""
+    out = []
+    states = [(21845, 65535, 32768, 3500), (30000, 65535, 30000, 2700), (65535, 20000, 65535, 9000), (0, 0, 0, 1500), (100, 65535, 1000, 4000), (43690, 32768, 65535, 2500)]
+    for mode in ('logical', 'raw', 'rgb'):
+        regs = ('red', 'green', 'blue') if mode == 'rgb' else ('hue', 'saturation', 'brightness')
+        body = ([R.Units(mode)] if mode != 'logical' else []) + [R.Get(R.Str('A'))] + [R.Print(R.Reg(r), ln=True) for r in regs + ('kelvin',)] \
+            + [R.Action('set', [R.Operand('light', R.Str('B'))]), R.Action('set', [R.Operand('light', R.Str('Z'), zone=(N(value=1), None))])]
+        if mode != 'rgb':
+            init = {'A': [N(sid=1, kind='raw'), N(sid=2, kind='raw'), N(sid=3, kind='raw'), N(sid=4, kind='kelvin')]}
+            out.append(Case(body, tag='get-%s-symbolic' % mode, init_colors=init))
+        for i, st in enumerate(states):
+            out.append(Case(body, tag='get-%s-%d' % (mode, i), init_colors={'A': [N(value=v) for v in st]}))
+        # get, switch units, set: the colour read survives the switch
+        other = 'raw' if mode != 'raw' else 'logical'
+        out.append(Case(body[:-2] + [R.Units(other), R.Action('set', [R.Operand('light', R.Str('B'))])], tag='get-%s-then-%s' % (mode, other),
+                        init_colors={'A': [N(value=v) for v in states[1]]}))
+    return out
+
